@@ -34,7 +34,9 @@ class C24(Property):
     drivers = ["Drivers/C24.lean"]
     translators = [cmdtmpl.generate]
     quick_budget_s = 900
+    thorough_budget_s = 3000
     op_timeout = 8
+    confirm_timeout = 90
     rule = ("random trees (names with blanks, quotes, $, backticks, glob characters, unicode, leading dashes, newlines; symlinks; contents with "
             "leading/trailing whitespace) are created twice; random sequences of the 16 path operations are executed through LocalStreamFlowPath on "
             "one copy and through RemoteStreamFlowPath over a persistent-sh connector (MiniConnector) on the other; after every operation the "
@@ -80,13 +82,13 @@ class C24(Property):
         return all(r["quoted"] for r in self.by_op.get(op, []))
 
     # ---- one sequence ------------------------------------------------------------------------------------------------
-    def run_sequence(self, ctx: Ctx, tame: bool, seq_seed: int, ops: list | None = None, nops: int = 10) -> None:
+    def run_sequence(self, ctx: Ctx, tame: bool, seq_seed: int, ops: list | None = None, nops: int = 10, links: bool = False) -> None:
         import random
         rng = random.Random(seq_seed)
         self.nseq += 1
         base = os.path.join(ctx.scratch, f"s{self.gen}_{self.nseq}")
         lroot, rroot = os.path.join(base, "local"), os.path.join(base, "remote")
-        make_tree(rng, lroot, max_entries=rng.choice([3, 8, 15]), nasty=0.0 if tame else 0.6, symlinks=not tame)
+        make_tree(rng, lroot, max_entries=rng.choice([3, 8, 15]), nasty=0.0 if tame else 0.6, symlinks=(not tame) or links)
         subprocess.run(["cp", "-a", lroot, rroot], check=True, timeout=60)
         entries = [k for k in snapshot(lroot) if k]
         context = make_context(base)
@@ -158,19 +160,41 @@ class C24(Property):
             from sfv.rt.shfake import kill_leftovers
             try:
                 pre = snapshot(lroot)
+                pre_copy = os.path.join(base, "pre")
                 for op in plan:
                     holder["conn"].commands.clear()
+                    shutil.rmtree(pre_copy, ignore_errors=True)
+                    subprocess.run(["cp", "-a", lroot, pre_copy], check=True, timeout=60)
                     lres = await apply(lpath, lroot, op)
                     task = aio.ensure_future(apply(rpath, rroot, op))
                     done, _ = await aio.wait({task}, timeout=self.op_timeout)
                     if not done:
                         task.cancel()
-                        rres = ["hang"]
-                        # the persistent shell is stuck: kill it and go on with a fresh connector
+                        # the persistent shell is stuck — or the machine is just slow: kill it, restore the remote tree and CONFIRM the
+                        # time-out by running this single operation again, alone, on a fresh shell with a much larger bound
                         kill_leftovers()
                         holder["conn"] = MiniConnector("c24remote")
                         context.deployment_manager.deployments_map["c24remote"] = holder["conn"]
-                        cmds = []
+                        shutil.rmtree(rroot, ignore_errors=True)
+                        subprocess.run(["cp", "-a", pre_copy, rroot], check=True, timeout=60)
+                        # hangs that are known defects (walk over a sub-directory, an unquoted path with shell-special characters) need no
+                        # confirmation; any other time-out does
+                        expected = op["op"] == "walk" or (not self.op_quoted(op["op"]) and not (
+                            is_safe(os.path.join(rroot, op["path"])) and is_safe(str(op.get("args", {}).get("target", "x")))))
+                        task = aio.ensure_future(apply(rpath, rroot, op))
+                        done, _ = await aio.wait({task}, timeout=2 if expected else self.confirm_timeout)
+                        if done:
+                            ctx.count("slow-operation-confirmed-not-a-hang")
+                            rres = task.result()
+                            cmds = list(holder["conn"].commands)
+                        else:
+                            task.cancel()
+                            rres = ["hang"]
+                            kill_leftovers()
+                            holder["conn"] = MiniConnector("c24remote")
+                            context.deployment_manager.deployments_map["c24remote"] = holder["conn"]
+                            cmds = []
+                            done = set()
                     else:
                         rres = task.result()
                         cmds = list(holder["conn"].commands)
@@ -201,7 +225,7 @@ class C24(Property):
                     pass
 
         try:
-            run_watchdog(go, 60 + self.op_timeout * len(plan))
+            run_watchdog(go, 120 + (self.op_timeout + self.confirm_timeout) * len(plan))
         except Hang as e:
             ctx.fail("sequence:hang", f"sequence {seq_seed} did not finish: {e}", {"op": "sequence", "tame": tame, "seq_seed": seq_seed, "upto": len(plan)})
         finally:
@@ -214,7 +238,74 @@ class C24(Property):
             self.judge(ctx, tame, seq_seed, plan, op, lres, rres, cmds, lsnap, rsnap, rroot)
             if tame and op["op"] == "mkdir" and rres != ["hang"]:
                 self.fs_model_case(op, lres, rres, lsnap, rsnap, pre)
+            if tame and op["op"] in ("symlink_to", "hardlink_to", "size", "chmod") and rres != ["hang"]:
+                self.fsl_model_case(op, lres, rres, lsnap, rsnap, pre, lroot)
         shutil.rmtree(base, ignore_errors=True)
+
+    def misc_cases(self, ctx: Ctx, n: int) -> None:
+        """`_size` on a LIST of paths (get_storage_usages) and `resolve()` of a path registered in the data manager"""
+        import random
+        from streamflow.core.data import DataType
+        from streamflow.data.remotepath import _size
+        for _ in range(n):
+            if ctx.out_of_time():
+                ctx.extra["incomplete"] = True
+                break
+            seed = ctx.rng.randrange(1 << 30)
+            rng = random.Random(seed)
+            self.nseq += 1
+            base = os.path.join(ctx.scratch, f"m{self.gen}_{self.nseq}")
+            root = os.path.join(base, "tree")
+            nasty = rng.random() < 0.5
+            make_tree(rng, root, max_entries=10, nasty=0.5 if nasty else 0.0, symlinks=False)
+            entries = [k for k, v in snapshot(root).items() if k]
+            paths = [os.path.join(root, e) for e in rng.sample(entries, min(len(entries), rng.randint(1, 3)))] or [root]
+            context = make_context(base)
+            conn = MiniConnector("c24remote")
+            context.deployment_manager.deployments_map["c24remote"] = conn
+            rloc = ExecutionLocation(name="loc0", deployment="c24remote", local=False)
+            lloc = ExecutionLocation(name="__LOCAL__", deployment="__LOCAL__", local=True)
+            out = {}
+
+            async def go():
+                try:
+                    out["local"] = await _size(context, lloc, list(paths))
+                    try:
+                        out["remote"] = await _size(context, rloc, list(paths))
+                    except Exception as e:  # noqa: BLE001
+                        out["remote"] = f"error {type(e).__name__}"
+                    reg = paths[0]
+                    context.data_manager.register_path(location=rloc, path=reg, relpath=reg, data_type=DataType.PRIMARY)
+                    for dl in context.data_manager.get_data_locations(path=reg, deployment="c24remote", location_name="loc0"):
+                        dl.available.set()
+                    conn.commands.clear()
+                    r = await RemoteStreamFlowPath(reg, context=context, location=rloc).resolve()
+                    out["resolve"] = (None if r is None else str(r), len(conn.commands))
+                finally:
+                    await conn.undeploy(False)
+            special = not all(is_safe(p) for p in paths)
+            try:
+                run_watchdog(go, 60)
+            except Hang as e:
+                out["hang"] = str(e)
+            finally:
+                context.deployment_manager.deployments_map.pop("c24remote", None)
+                try:
+                    run_watchdog(context.close, 10)
+                except Exception:  # noqa: BLE001
+                    pass
+            rel = [os.path.relpath(p, root) for p in paths]
+            ctx.case({"op": "_size(list)+resolve(registered)", "paths": rel, "out": {k: str(v)[:60] for k, v in out.items()}}, ("misc", seed),
+                     f"size-list:{'nasty' if special else 'tame'}")
+            replay = {"op": "misc", "seed": seed}
+            if out.get("hang") or out.get("local") != out.get("remote"):
+                dq_safe = all(not any(c in p for c in '$`"\\') for p in paths)
+                key = "remote:size:path-not-quoted" if (special and not dq_safe) else "size-list:differs-from-local"
+                ctx.fail(key, f"_size({rel}): local {out.get('local')}, remote {out.get('remote')} {out.get('hang', '')}", replay)
+            if "resolve" in out and out["resolve"] != (paths[0], 0):
+                ctx.fail("resolve:registered-primary-path-not-returned-as-is",
+                         f"resolve() of the registered PRIMARY path {rel[0]!r} returned {out['resolve'][0]!r} after {out['resolve'][1]} shell command(s)", replay)
+            shutil.rmtree(base, ignore_errors=True)
 
     def plan(self, rng, entries: list[str], tame: bool, nops: int) -> list[dict]:
         plan = []
@@ -336,6 +427,8 @@ class C24(Property):
                 return "glob:remote-splits-results-on-whitespace"
             if any(c in rel for c in "*?[]"):
                 return "glob:local-treats-path-as-pattern"
+            if any(c in str(a.get("pattern", "")) for c in "?[") and any(not k.isascii() for k in lsnap):
+                return "glob:question-mark-matches-bytes-remotely-characters-locally"
             return "glob:differs"
         if name == "resolve":
             return "resolve:differs"
@@ -361,6 +454,79 @@ class C24(Property):
                 return "error"
             return "ok " + "".join("1" if snap.get("/".join(comps[: i + 1]), ("",))[0] == "d" else "0" for i in range(len(comps)))
         self.fs_expect.append((f"L {bits(lres, lsnap)} R {bits(rres, rsnap)}", {"op": op, "dirs": dirs[:10], "files": files[:10]}))
+
+    def fsl_model_case(self, op, lres, rres, lsnap, rsnap, pre, lroot) -> None:
+        """symlink_to / hardlink_to / size / chmod on the Lean model with links (SFV/Model/FSL.lean) vs the real local API and remote command"""
+        name, rel, a = op["op"], op["path"], op.get("args", {})
+        if not rel and name != "size":
+            return
+        entries = []
+        for k, v in pre.items():
+            if not k:
+                continue
+            if v[0] == "d":
+                entries.append(f"d:{hx(k)}")
+            elif v[0] == "f":
+                mode = os.lstat(os.path.join(lroot, k)).st_mode & 0o777 if False else None
+                entries.append(("f", k, v[2]))
+            elif v[0] == "l":
+                t = os.path.normpath(os.path.join(os.path.dirname(k), v[1]))
+                if t.startswith("..") or os.path.isabs(v[1]):
+                    return  # a link leaving the tree: outside the model
+                if pre.get(t, ("",))[0] in ("d", "l") or t == ".":
+                    return  # links to directories / chains of links: outside the model (leaf links to files only)
+                entries.append(f"l:{hx(k)}:{hx(t)}:{len(v[1].encode())}")
+        # file modes are not part of the snapshots: chmod is compared on the mode it sets, the others do not depend on modes
+        entries = [e if isinstance(e, str) else f"f:{hx(e[1])}:{e[2]}:420" for e in entries]
+        comps = rel
+        if name in ("symlink_to", "hardlink_to"):
+            target = str(a.get("target", ""))
+            if target.startswith("-") or not target:
+                return  # `ln` would read it as an option: a separate known finding, outside the model
+            if name == "symlink_to":
+                tpath = os.path.normpath(os.path.join(os.path.dirname(rel), target))
+                if tpath.startswith(".."):
+                    return
+            else:
+                tpath = target
+            base = os.path.basename(target)
+            if name == "symlink_to" and pre.get(tpath, ("",))[0] in ("d", "l"):
+                return
+            line = f"fsl {'symlink' if name == 'symlink_to' else 'hardlink'} {hx(comps)} {hx(tpath)} {len(target.encode())} E " + " ".join(entries)
+
+            def kinds(res, snap):
+                if res == ["error"]:
+                    return "error"
+
+                def k(pth):
+                    v = snap.get(pth)
+                    return "-" if v is None else ("f420" if v[0] == "f" else v[0])
+                return f"ok {k(rel)} {k(os.path.join(rel, base))}"
+            expect = f"L {kinds(lres, lsnap)} R {kinds(rres, rsnap)}"
+        elif name == "size":
+            if not isinstance(lres, int) or not isinstance(rres, int):
+                return
+            line = f"fsl size {hx(comps) if comps else '-'} - - E " + " ".join(entries)
+            expect = f"L {lres} R {rres}"
+        else:  # chmod
+            mode = a.get("mode", 0o644)
+            follow = a.get("follow", True)
+
+            def cm(res):
+                if res == ["error"]:
+                    return "error"
+                ent = pre.get(rel)
+                # the model reports the kind (and new mode) of the node the operation ends on
+                if ent and ent[0] == "d":
+                    return "ok d"
+                return f"ok f{mode}"
+            ent = pre.get(rel)
+            if ent is None or ent[0] == "l":
+                return  # through links the harness cannot see which node changed: left to the differential comparison
+            line = f"fsl chmod {hx(comps)} {hx(str(mode))} {int(bool(follow))} E " + " ".join(entries)
+            expect = f"L {cm(lres)} R {cm(rres)}"
+        self.fs_lines.append(line)
+        self.fs_expect.append((expect, {"op": op, "entries": len(entries)}))
 
     def check_templates(self, ctx, name, full, a, cmds, rroot) -> None:
         variants = self.by_op.get(name if name != "is_executable" else name, [])
@@ -410,6 +576,24 @@ class C24(Property):
                      "args": {"mode": 0o755, "parents": g.random() < 0.5, "exist_ok": g.random() < 0.5}} for _ in range(10)]
             plan.insert(3, {"op": "write_text", "path": "b", "args": {"data": "x"}})
             self.run_sequence(ctx, tame=True, seq_seed=r2, ops=plan)
+        # link-focused sequences on tame names (ties the Lean model with links: symlink_to / hardlink_to / size / chmod)
+        for _ in range(6 if big else 2):
+            r3 = rng.randrange(1 << 30)
+            import random as _random
+            g = _random.Random(r3)
+            names = ["a", "b", "c1", "sub", "sub/x", "sub/y"]
+            plan = [{"op": "mkdir", "path": "sub", "args": {"mode": 0o755, "parents": False, "exist_ok": True}},
+                    {"op": "write_text", "path": "a", "args": {"data": "hello"}}, {"op": "write_text", "path": "sub/x", "args": {"data": "xy"}}]
+            for _i in range(9):
+                k = g.choice(["symlink_to", "hardlink_to", "size", "chmod", "symlink_to", "size"])
+                if k == "size":
+                    plan.append({"op": "size", "path": g.choice(["", "sub", "a", "b"]), "args": {}})
+                elif k == "chmod":
+                    plan.append({"op": "chmod", "path": g.choice(names), "args": {"mode": g.choice([0o600, 0o755, 0o644]), "follow": g.random() < 0.8}})
+                else:
+                    plan.append({"op": k, "path": g.choice(names), "args": {"target": g.choice(["a", "sub/x", "sub", "b"])}})
+            self.run_sequence(ctx, tame=True, seq_seed=r3, ops=plan, links=True)
+        self.misc_cases(ctx, 20 if big else 4)
         # walk: one guaranteed case on a directory with a sub-directory (never terminates today: known finding) and one on a flat directory
         self.run_sequence(ctx, tame=True, seq_seed=rng.randrange(1 << 30), ops=[
             {"op": "mkdir", "path": "wflat", "args": {"mode": 0o755, "parents": False, "exist_ok": False}},
@@ -430,9 +614,10 @@ class C24(Property):
                              f"{[unhx(o) if o != 'bad-op' else o for o in outs]}", sample)
         if self.fs_lines:
             for g, (e, sample) in zip(fs_got, self.fs_expect):
-                ctx.count("fs-model:mkdir")
+                opn = sample["op"]["op"]
+                ctx.count(f"fs-model:{opn}")
                 if g != e:
-                    ctx.disagree("FS model of mkdir (local API / remote command)", f"real {e!r}, Lean model {g!r}", sample)
+                    ctx.disagree(f"FS model of {opn} (local API / remote command)", f"real {e!r}, Lean model {g!r}", sample)
         ctx.extra["templates"] = {r["lean"]: ("quoted" if r["quoted"] else "NOT-quoted") for r in self.table if r["via"] != "env"}
 
     @in_scratch_cwd
